@@ -222,6 +222,23 @@ def edges():
         add('macro', body)
         add('macro', body + '\n')
         add('macro', body + ';\nint z;\n')
+    # __VA_OPT__ / __VA_ARGS__ macros called with every argument shape, in text and inside #if (the string-level expander has its own argument scanner)
+    for d_ in ['#define F(...) __VA_OPT__(1) 0', '#define F(a, ...) a __VA_OPT__(+ 1)', '#define F(a, ...) #__VA_ARGS__ a', '#define F(a, b, ...) a ## b __VA_OPT__(__VA_ARGS__)',
+               '#define F(...) __VA_ARGS__ + 0', '#define F(a...) a + 0']:
+        for call in ['F()', 'F(1)', 'F(1,)', 'F(,)', 'F(1,2)', 'F(1,2,3)', 'F( )', 'F((1,2))', 'F', 'F(']:
+            add('va-opt', '%s\n#if %s\nint y;\n#endif\n' % (d_, call))
+            add('va-opt', '%s\nint v = %s;\n' % (d_, call))
+            add('va-opt', '%s\n#define G %s\n#if G\n#endif\nint w = G;\n' % (d_, call))
+    # property / sequence declarations that name members which do not exist, in every position
+    for decl in ['__make_seq(s, get_n, get_item)', '__make_seq(s, get_n, nope)', '__make_seq(s, nope, get_item)', '__make_seq(s, nope, nope2)', '__make_seq(s, get_item, get_n)', '__make_seq(s, x, get_item)',
+                 '__make_seq(s, get_n)', '__make_seq(s)', '__make_seq()', '__make_seq(get_n, get_n, get_n)', '__make_seq(s, get_n, get_item, extra)',
+                 '__make_property(p, get_n)', '__make_property(p, nope)', '__make_property(p, get_n, nope)', '__make_property(p, nope, set_n)', '__make_property(p, get_n, set_n)', '__make_property(p, x)',
+                 '__make_property(p)', '__make_property()', '__make_property(p, get_item)', '__make_property2(p, has_n, get_n)', '__make_property2(p, nope, get_n)', '__make_property2(p, has_n, get_n, nope, clear_n)',
+                 '__make_seq_property(p, get_n, get_item)', '__make_seq_property(p, get_n, nope)', '__make_seq_property(p, nope, get_item)', '__make_seq_property(p, get_n, get_item, nope)',
+                 '__make_map_property(p, has_k, get_k)', '__make_map_property(p, nope, get_k)', '__make_map_property(p, has_k, nope)', '__make_map_property(p, get_k)', '__make_map_property(p, nope)',
+                 '__make_map_keys_seq(p, get_n, get_item)', '__make_map_keys_seq(p, nope, nope)']:
+        add('make-seq', 'class A {\n__published:\n  int get_n() const;\n  void set_n(int v);\n  bool has_n() const;\n  void clear_n();\n  int get_item(int i) const;\n  bool has_k(int k) const;\n'
+                        '  int get_k(int k) const;\n  int x;\n  %s;\n};\n' % decl)
     # structure: unterminated / unbalanced constructs
     for s in ['{', '}', '(', ')', '[', ']', '<', '>', ';', 'class', 'class A', 'class A {', 'class A {}', 'class A : ', 'class A : public', 'class A : public B {', 'struct {', 'enum', 'enum {', 'enum { a',
               'enum { a =', 'enum { a = 1,', 'enum A : ', 'namespace', 'namespace {', 'namespace A = ', 'template', 'template<', 'template<class', 'template<class T', 'template<class T>', 'template<class T> class',
